@@ -128,6 +128,22 @@ CLAIMED = {
             'solver-enumerated bounded histories (z3 all-SAT; symbolic real '
             'filter_threshold forked by the real comparisons) executed on '
             'the real classes and compared with fresh instances'),
+    'C19': ('3/C19',
+            'For symbolic data and error arrays (NaN-extended, <=1 NaN '
+            'each, <=1 masked pixel) on 4x4/4x6/6x4/5x5 images, every '
+            'centre class (middle, near each edge, off the edge), radii '
+            'starting at 0 or not, and the three methods: CurveOfGrowth.'
+            'profile/profile_error/area equal the circular-aperture sums '
+            'over unmasked finite pixels (weights from the aperture mask, '
+            'registered independently), RadialProfile.profile*d(area) = '
+            'd(flux) with errors in quadrature, and the caller\'s arrays are '
+            'untouched. normalize/unnormalize/first-read/encircled-energy '
+            'histories (length <=4) on concrete data: every array equals '
+            'fresh/normalisation, calc_ee_at_radius(radii)=profile and '
+            'calc_radius_at_ee inverts it on the monotone part.',
+            'compiled circular weights taken as given (C01); areas with '
+            '1e-9 tolerance; monotonicity for non-negative data not claimed',
+            TECH),
 }
 
 NOT_YET = {}
